@@ -259,7 +259,59 @@ func parsePubKeyCached(pk []byte) (secp.Point, bool) {
 
 // VerifyECDSA is CPubKey::Verify: header/length-consistent key, on-curve
 // point (hybrid keys allowed with matching parity), lax DER, S normalised.
-func VerifyECDSA(pk, hash, derSig []byte) bool {
+func VerifyECDSA(pk, hash, derSig []byte) bool { return verifyECDSAQ(pk, hash, derSig, false) }
+
+// btcecBERAccepts emulates the structural checks of btcec's non-DER
+// signature parser (only used to recognise the known finding QuirkStrictBER).
+func btcecBERAccepts(sig []byte) bool {
+	if len(sig) < 8 || sig[0] != 0x30 {
+		return false
+	}
+	end := int(uint8(sig[1] + 2)) // byte arithmetic, as in the emulated code
+	if end > len(sig) || end < 8 {
+		return false
+	}
+	sig = sig[:end]
+	if sig[2] != 0x02 {
+		return false
+	}
+	rLen := int(sig[3])
+	idx := 4
+	if rLen <= 0 || rLen > len(sig)-idx-3 {
+		return false
+	}
+	idx += rLen
+	if sig[idx] != 0x02 {
+		return false
+	}
+	idx++
+	sLen := int(sig[idx])
+	idx++
+	if sLen <= 0 || sLen > len(sig)-idx {
+		return false
+	}
+	idx += sLen
+	return idx == len(sig)
+}
+
+// btcecSigParses emulates whether btcd's signature parser yields a usable
+// signature (only used by quirk emulation).
+func btcecSigParses(sigWithType []byte, flags Flags) bool {
+	if len(sigWithType) == 0 {
+		return false
+	}
+	sig := sigWithType[:len(sigWithType)-1]
+	if flags&(StrictEnc|DERSig) == 0 && !btcecBERAccepts(sig) {
+		return false
+	}
+	r, s, ok := ParseDERLax(sig)
+	return ok && r.Sign() > 0 && s.Sign() > 0
+}
+
+func verifyECDSAQ(pk, hash, derSig []byte, strictBER bool) bool {
+	if strictBER && !btcecBERAccepts(derSig) {
+		return false
+	}
 	key := string([]byte{byte(len(pk)), byte(len(pk) >> 8)}) + string(pk) + string(hash) + string(derSig)
 	cacheMu.Lock()
 	v, hit := ecdsaCache[key]
@@ -338,7 +390,7 @@ func (c *checker) checkECDSA(sigIn, pk, scriptCode []byte, sv sigVersion) bool {
 	} else {
 		h = LegacySigHash(c.tx, c.idx, scriptCode, hashType)
 	}
-	return VerifyECDSA(pk, h, sig)
+	return verifyECDSAQ(pk, h, sig, c.quirks&QuirkStrictBER != 0)
 }
 
 // checkSchnorr is CheckSchnorrSignature.
